@@ -673,3 +673,117 @@ Fixpoint assigns (ns : ns_map) (h : held) (hist : list (list (str * str))) : opt
                end
   end.
 Definition assigns0 (ns : ns_map) (hist : list (list (str * str))) : option held := assigns ns held0 hist.
+
+(* ================================================================== @page selectors
+   CSSPageRule.__parseSelectorText (csspagerule.py:154-245) on the token list, and the commit discipline of
+   CSSPageRule._setSelectorText (l.388-394) / _setCssText (l.300-360).                                           *)
+Inductive pexp := PE_page | PE_colon_or_EOF | PE_EOF.
+Definition item2 := (str * str)%type.            (* (type, value) of a Seq item; comments carry their text *)
+Record pst := mkP {
+  p_e : pexp;
+  p_wf : bool;          (* new['wellformed'] and _parse's wellformed *)
+  p_err : bool;         (* some log.error was issued (raises in raising mode) *)
+  p_lastS : bool;       (* new['last-S'] *)
+  p_name : nat; p_first : nat; p_lr : nat;
+  p_seq : list item2    (* reversed *)
+}.
+Definition p_bad (σ : pst) : pst := mkP (p_e σ) false true (p_lastS σ) (p_name σ) (p_first σ) (p_lr σ) (p_seq σ).
+Definition p_logerr (σ : pst) : pst := mkP (p_e σ) (p_wf σ) true (p_lastS σ) (p_name σ) (p_first σ) (p_lr σ) (p_seq σ).
+Definition p_push (i : item2) (σ : pst) : pst :=
+  mkP (p_e σ) (p_wf σ) (p_err σ) (p_lastS σ) (p_name σ) (p_first σ) (p_lr σ) (i :: p_seq σ).
+Definition is_pe (a b : pexp) : bool :=
+  match a, b with PE_page, PE_page | PE_colon_or_EOF, PE_colon_or_EOF | PE_EOF, PE_EOF => true | _, _ => false end.
+
+(* _parse's loop with the four productions + util's default ATKEYWORD / EOF; None = not modelled
+   (the default ATKEYWORD production builds a CSSUnknownRule from the rest of the tokens) *)
+Fixpoint prun (σ : pst) (ts : list stok) : option pst :=
+  match ts with
+  | [] => Some σ
+  | t :: r =>
+    match sty t with
+    | TCHAR =>                                                                          (* _char, l.165-196 *)
+      if negb (p_lastS σ) && (is_pe (p_e σ) PE_page || is_pe (p_e σ) PE_colon_or_EOF) && eqs (s ":") (sval t) then
+        match r with
+        | [] => Some (p_logerr σ)                                                       (* StopIteration *)
+        | i :: r' =>
+          if is_t (sty i) TIDENT then
+            let nval := normalize (sval i) in
+            let fst1 := eqs nval (s "first") in
+            prun (mkP PE_EOF (p_wf σ) (p_err σ) (p_lastS σ) (p_name σ)
+                      (if fst1 then 1%nat else p_first σ) (if fst1 then p_lr σ else 1%nat)
+                      ((s "pseudo", sval t ++ sval i) :: p_seq σ)) r'
+          else prun (p_logerr σ) r'
+        end
+      else prun (p_bad σ) r
+    | TS => prun (if is_pe (p_e σ) PE_colon_or_EOF                                      (* S, l.198-203 *)
+                  then mkP (p_e σ) (p_wf σ) (p_err σ) true (p_name σ) (p_first σ) (p_lr σ) (p_seq σ) else σ) r
+    | TIDENT =>                                                                         (* IDENT, l.205-222 *)
+      if is_pe (p_e σ) PE_page then
+        if eqs (normalize (sval t)) (s "auto")
+        then prun (mkP PE_colon_or_EOF (p_wf σ) true (p_lastS σ) (p_name σ) (p_first σ) (p_lr σ) (p_seq σ)) r
+        else prun (mkP PE_colon_or_EOF (p_wf σ) (p_err σ) (p_lastS σ) 1%nat (p_first σ) (p_lr σ)
+                       ((s "IDENT", sval t) :: p_seq σ)) r
+      else prun (p_bad σ) r
+    | TCOMMENT => prun (p_push (s "COMMENT", sval t) σ) r                               (* COMMENT, l.224-227 *)
+    | TATKEYWORD => if is_pe (p_e σ) PE_EOF then prun (p_bad σ) r else None
+    | TEOF => prun (mkP PE_EOF (p_wf σ) (p_err σ) (p_lastS σ) (p_name σ) (p_first σ) (p_lr σ) (p_seq σ)) r
+    | _ => prun (p_bad σ) r                                                             (* no production *)
+    end
+  end.
+
+Definition pst0 : pst := mkP PE_page true false false 0 0 0 [].
+Inductive presult := PAccepted (n f l : nat) (seq : list item2) | PRejected | PUnmodelled.
+(* raising = css_parser.log.raiseExceptions: the first log.error raises and nothing is committed *)
+Definition run_page (raising : bool) (ts : list stok) : presult :=
+  match prun pst0 ts with
+  | None => PUnmodelled
+  | Some σ => if p_wf σ && negb (raising && p_err σ)
+              then PAccepted (p_name σ) (p_first σ) (p_lr σ) (rev (p_seq σ)) else PRejected
+  end.
+Definition page_spec (r : presult) : nat * nat * nat :=
+  match r with PAccepted n f l _ => (n, f, l) | _ => (0, 0, 0)%nat end.
+
+(* what a CSSPageRule object reports *)
+Record pheld := mkPH { ph_spec : nat * nat * nat; ph_seq : list item2 }.
+Definition pheld0 : pheld := mkPH (0, 0, 0)%nat [].
+(* the part of _setCssText that is not modelled (brace matching, declarations, margin rules) enters as the
+   observable class of the block: BOk, BLogged (an error is logged inside the block: raises in raising mode, the rest
+   is committed in logging mode), BReject (no '{', no '}', trailing content: ok = False) *)
+Inductive blockfault := BOk | BLogged | BReject.
+Inductive passign :=
+| ASel (ts : list stok)                                       (* rule.selectorText = ... *)
+| ACss (ispage : bool) (sel : list stok) (b : blockfault).    (* rule.cssText = '@page' sel '{' ... *)
+Definition pcommit (h : pheld) (ok : bool) (r : presult) : option pheld :=
+  match r with
+  | PUnmodelled => None
+  | PRejected => Some h
+  | PAccepted n f l q => Some (if ok then mkPH (n, f, l) q else h)
+  end.
+Definition page_assign (raising : bool) (h : pheld) (a : passign) : option pheld :=
+  match a with
+  | ASel ts => pcommit h true (run_page raising ts)
+  | ACss false _ _ => Some h                                  (* not an @page rule: InvalidModificationErr *)
+  | ACss true ts b =>
+    pcommit h (match b with BOk => true | BLogged => negb raising | BReject => false end) (run_page raising ts)
+  end.
+Fixpoint page_assigns (raising : bool) (h : pheld) (hist : list passign) : option pheld :=
+  match hist with
+  | [] => Some h
+  | a :: r => match page_assign raising h a with Some h' => page_assigns raising h' r | None => None end
+  end.
+
+(* page selector grammar:  S* [ IDENT ]? [ ':' (first|left|right) ]? S*  with comments; no whitespace between the
+   name and the pseudo page (comments are allowed there) *)
+Inductive ppseudo := PFirst | PLeft | PRight.
+Definition ppseudo_name (p : ppseudo) : str :=
+  match p with PFirst => s "first" | PLeft => s "left" | PRight => s "right" end.
+Record pagesel := mkPage { pg_lead : wsl; pg_name : option str; pg_cm : list str; pg_pseudo : option ppseudo;
+                           pg_trail : wsl }.
+Definition render_page (p : pagesel) : list stok :=
+  r_ws (pg_lead p) ++ match pg_name p with Some n => [mkS TIDENT n] | None => [] end ++ r_cm (pg_cm p) ++
+  match pg_pseudo p with Some x => [ch ":"; mkS TIDENT (ppseudo_name x)] | None => [] end ++ r_ws (pg_trail p).
+Definition ok_page (p : pagesel) : bool :=
+  match pg_name p with Some n => negb (eqs (normalize n) (s "auto")) | None => true end.
+Definition named (p : pagesel) : nat := match pg_name p with Some _ => 1 | None => 0 end.
+Definition first_page (p : pagesel) : nat := match pg_pseudo p with Some PFirst => 1 | _ => 0 end.
+Definition left_or_right (p : pagesel) : nat := match pg_pseudo p with Some PLeft | Some PRight => 1 | _ => 0 end.
